@@ -7,11 +7,9 @@ Import ListNotations.
 Open Scope Z_scope.
 Open Scope bool_scope.
 
-Definition benign (c : call) : Prop := env_fail c = false.
-
 (* ---------------------------------------------------------------- tactics *)
 Ltac unfold_calls :=
-  unfold step, create_offer, create_answer, set_local, set_local_gen, set_remote, set_remote_gen,
+  unfold create_offer_raw, create_answer_raw, set_local, set_local_gen, set_remote_raw,
     remote_apply, check_rule, local_mutate, handle_reinvite, fp_conflict, remote_fp, not_wrtc,
     set_local_check_first, set_remote_fp_check_early, set_remote_next_mid_after_check,
     create_offer_required, create_answer_required in *.
@@ -70,31 +68,38 @@ Qed.
 Lemma refused_is_self_loop q k : refused_though_allowed q k = true -> spec_step q k = Some q.
 Proof. destruct q, k as [| |t|t| |]; try destruct t; cbn; intros H; try discriminate; reflexivity. Qed.
 
-(* ---------------------------------------------------------------- per-call case lemmas *)
-(* Without an environment failure every call either returns an error and leaves the WHOLE state
-   as it was, or succeeds and moves the signaling state as its table entry says. *)
-Lemma create_offer_sig m s e : sig (fst (create_offer m s e)) = sig s.
-Proof. unfold_calls. repeat break_if; proj_simpl; reflexivity. Qed.
+(* ---------------------------------------------------------------- per-call facts (unguarded work) *)
+(* What the work of a call does, whatever the environment: it never touches the stored local
+   description (except set_local) nor the DTLS flag, never reports Closed unless it started
+   there, and either returns an error or succeeds and moves the signaling state as its table
+   entry says. *)
+Definition frame (s s' : st) : Prop :=
+  local s' = local s /\ dtls_started s' = dtls_started s /\ (sig s' = Closed -> sig s = Closed).
 
-Lemma create_answer_sig m s e : sig (fst (create_answer m s e)) = sig s.
-Proof. unfold_calls. repeat break_if; proj_simpl; reflexivity. Qed.
+Ltac finish_facts := repeat split; intros; auto; try discriminate; try congruence.
 
-Lemma create_offer_cases m s :
-  (fst (create_offer m s false) = s /\ is_err (snd (create_offer m s false)) = true) \/
-  (snd (create_offer m s false) = Ok /\ sig s = Stable).
+Lemma create_offer_raw_facts m s f :
+  frame s (fst (create_offer_raw m s f)) /\ sig (fst (create_offer_raw m s f)) = sig s /\
+  (snd (create_offer_raw m s f) = Ok -> sig s = Stable) /\
+  (is_err (snd (create_offer_raw m s false)) = true -> fst (create_offer_raw m s false) = s).
 Proof.
-  unfold_calls. rewrite andb_false_r.
-  destruct (sig s) eqn:Hs; proj_simpl; auto.
-  destruct (txs s); proj_simpl; auto.
+  unfold frame. unfold_calls. rewrite andb_false_r.
+  destruct (sig s) eqn:Hs; proj_simpl; [ | finish_facts | finish_facts | finish_facts ].
+  destruct (txs s); proj_simpl; [finish_facts|].
+  destruct (negb (TransportMode_eqb m WebRtc) && f); proj_simpl; rewrite ?Hs; finish_facts.
 Qed.
 
-Lemma create_answer_cases m s :
-  (fst (create_answer m s false) = s /\ is_err (snd (create_answer m s false)) = true) \/
-  (snd (create_answer m s false) = Ok /\ sig s = HaveRemoteOffer).
+Lemma create_answer_raw_facts m s f :
+  frame s (fst (create_answer_raw m s f)) /\ sig (fst (create_answer_raw m s f)) = sig s /\
+  (snd (create_answer_raw m s f) = Ok -> sig s = HaveRemoteOffer) /\
+  (is_err (snd (create_answer_raw m s false)) = true -> fst (create_answer_raw m s false) = s).
 Proof.
-  unfold_calls. rewrite andb_false_r.
-  destruct (sig s) eqn:Hs; proj_simpl; auto.
-  repeat (break_if; proj_simpl; auto).
+  unfold frame. unfold_calls. rewrite andb_false_r.
+  destruct (sig s) eqn:Hs; proj_simpl; [ finish_facts | finish_facts | | finish_facts ].
+  destruct (txs s); proj_simpl; [finish_facts|].
+  destruct (remote s); proj_simpl; [|finish_facts].
+  destruct (order_answer _ _ _) as [[|i o]|]; proj_simpl; [finish_facts | | finish_facts].
+  destruct (negb (TransportMode_eqb m WebRtc) && f); proj_simpl; rewrite ?Hs; finish_facts.
 Qed.
 
 Lemma set_local_cases s d :
@@ -109,55 +114,114 @@ Proof.
   all: right; split; [reflexivity|]; do 2 eexists; repeat split; reflexivity.
 Qed.
 
-Lemma set_remote_cases m s d :
-  (fst (set_remote m s d false) = s /\ is_err (snd (set_remote m s d false)) = true) \/
-  (snd (set_remote m s d false) = Ok /\
-   exists req nxt, set_remote_rule (d_ty d) = Some (req, nxt) /\ sig s = req /\
-                   sig (fst (set_remote m s d false)) = match nxt with Some q => q | None => sig s end).
+Definition remote_ok (s : st) (d : desc) (p : st * result) : Prop :=
+  snd p = Ok /\
+  exists req nxt, set_remote_rule (d_ty d) = Some (req, nxt) /\ sig s = req /\
+                  sig (fst p) = match nxt with Some q => q | None => sig s end.
+
+Lemma set_remote_raw_facts m s d f :
+  let p := set_remote_raw true true m s d f in
+  frame s (fst p) /\ (is_err (snd p) = true \/ remote_ok s d p) /\
+  (f = false -> is_err (snd p) = true -> fst p = s).
 Proof.
-  unfold_calls. rewrite !andb_false_r.
-  destruct (d_ty d) eqn:Ht; proj_simpl; [ | | | left; auto].
+  unfold frame, remote_ok. unfold_calls. cbn zeta.
+  destruct (d_ty d) eqn:Ht; proj_simpl; [ | | | repeat split; auto; discriminate].
   all: destruct m; proj_simpl;
-       [ destruct (d_fp d); proj_simpl; [left; auto | | left; auto | left; auto] | | ].
+       [ destruct (d_fp d); proj_simpl;
+         [ repeat split; auto; discriminate | | repeat split; auto; discriminate | repeat split; auto; discriminate ] | | ].
   all: match goal with |- context [dtls_started ?s0 && ?x] => destruct (dtls_started s0 && x) eqn:Hc end;
-       proj_simpl; [left; auto|].
+       proj_simpl; [repeat split; auto; discriminate|].
   all: destruct (remote s) as [p|] eqn:Hr; proj_simpl;
        [ destruct (d_media p =? d_media d) eqn:Hm; proj_simpl | ].
-  all: destruct (sig s) eqn:Hs; repeat progress (proj_simpl; rewrite ?Hs, ?Hc); auto.
+  all: destruct (sig s) eqn:Hs; repeat progress (proj_simpl; rewrite ?Hs, ?Hc);
+       try (repeat split; auto; discriminate).
+  all: destruct f; repeat progress (proj_simpl; rewrite ?Hs, ?Hc);
+       repeat split; auto; try discriminate; try congruence.
   all: right; split; [reflexivity|]; do 2 eexists; repeat split; reflexivity.
 Qed.
 
-(* ---------------------------------------------------------------- atomicity, one step *)
-Lemma err_not_ok r : is_err r = true -> r <> Ok.
-Proof. destruct r; cbn; congruence. Qed.
-
-Lemma step_err_same m s c e :
-  benign c -> snd (step m s c) = Err e -> fst (step m s c) = s.
+(* ---------------------------------------------------------------- the guard *)
+Lemma restore_same s s' : frame s s' -> restore s s' = s.
 Proof.
-  unfold benign. destruct c as [f|f|d|d f| |]; cbn [env_fail step]; intros Hf Hr; subst.
-  - destruct (create_offer_cases m s) as [[H _]|[H _]]; [exact H | congruence].
-  - destruct (create_answer_cases m s) as [[H _]|[H _]]; [exact H | congruence].
+  intros (Hl & Hd & Hc). unfold restore. rewrite Hl, Hd.
+  destruct (SignalingState_eqb (sig s') Closed) eqn:He.
+  - assert (sig s' = Closed) as H by (destruct (sig s'); cbn in He; congruence).
+    rewrite H. pose proof (Hc H) as Hs. destruct s; cbn in *; subst; reflexivity.
+  - destruct s; reflexivity.
+Qed.
+
+Lemma guard_err s p : frame s (fst p) -> is_err (snd p) = true -> guard true s p = (s, snd p).
+Proof. intros Hf He. unfold guard. rewrite He. cbn. rewrite restore_same by exact Hf. reflexivity. Qed.
+
+Lemma guard_ok g s p : snd p = Ok -> guard g s p = p.
+Proof. intros H. unfold guard. rewrite H. cbn. rewrite andb_false_r. reflexivity. Qed.
+
+Lemma result_dec r : is_err r = true \/ r = Ok.
+Proof. destruct r; cbn; auto. Qed.
+
+(* with the guards every call either returns an error and leaves the WHOLE state as it was, or
+   succeeds and moves the signaling state as its table entry says -- environment failure or not *)
+Lemma create_offer_cases m s f :
+  (fst (create_offer m s f) = s /\ is_err (snd (create_offer m s f)) = true) \/
+  (snd (create_offer m s f) = Ok /\ sig s = Stable /\ sig (fst (create_offer m s f)) = sig s).
+Proof.
+  unfold create_offer, create_offer_gen, create_offer_restores_on_error.
+  destruct (create_offer_raw_facts m s f) as (Hf & Hs & Hok & _).
+  destruct (result_dec (snd (create_offer_raw m s f))) as [He|Ho].
+  - left. rewrite (guard_err _ _ Hf He). auto.
+  - right. rewrite (guard_ok _ _ _ Ho). auto.
+Qed.
+
+Lemma create_answer_cases m s f :
+  (fst (create_answer m s f) = s /\ is_err (snd (create_answer m s f)) = true) \/
+  (snd (create_answer m s f) = Ok /\ sig s = HaveRemoteOffer /\ sig (fst (create_answer m s f)) = sig s).
+Proof.
+  unfold create_answer, create_answer_gen, create_answer_restores_on_error.
+  destruct (create_answer_raw_facts m s f) as (Hf & Hs & Hok & _).
+  destruct (result_dec (snd (create_answer_raw m s f))) as [He|Ho].
+  - left. rewrite (guard_err _ _ Hf He). auto.
+  - right. rewrite (guard_ok _ _ _ Ho). auto.
+Qed.
+
+Lemma set_remote_cases m s d f :
+  (fst (set_remote m s d f) = s /\ is_err (snd (set_remote m s d f)) = true) \/
+  (snd (set_remote m s d f) = Ok /\
+   exists req nxt, set_remote_rule (d_ty d) = Some (req, nxt) /\ sig s = req /\
+                   sig (fst (set_remote m s d f)) = match nxt with Some q => q | None => sig s end).
+Proof.
+  unfold set_remote, set_remote_gen, set_remote_restores_on_error, set_remote_fp_check_early,
+    set_remote_next_mid_after_check.
+  destruct (set_remote_raw_facts m s d f) as (Hf & [He|Hok] & _).
+  - left. rewrite (guard_err _ _ Hf He). auto.
+  - right. destruct Hok as (Ho & Hrest). rewrite (guard_ok _ _ _ Ho). auto.
+Qed.
+
+(* ---------------------------------------------------------------- atomicity, one step *)
+Lemma step_err_same m s c e : snd (step m s c) = Err e -> fst (step m s c) = s.
+Proof.
+  destruct c as [f|f|d|d f| |]; cbn [step]; intros Hr.
+  - destruct (create_offer_cases m s f) as [[H _]|[H _]]; [exact H | congruence].
+  - destruct (create_answer_cases m s f) as [[H _]|[H _]]; [exact H | congruence].
   - destruct (set_local_cases s d) as [[H _]|[H _]]; [exact H | congruence].
-  - destruct (set_remote_cases m s d) as [[H _]|[H _]]; [exact H | congruence].
+  - destruct (set_remote_cases m s d f) as [[H _]|[H _]]; [exact H | congruence].
   - cbn in Hr. discriminate.
   - cbn in Hr. discriminate.
 Qed.
 
 Lemma step_atomic m s c :
-  benign c -> is_err (snd (step m s c)) = true ->
+  is_err (snd (step m s c)) = true ->
   obs (fst (step m s c)) = obs s /\ next_mid (fst (step m s c)) = next_mid s.
 Proof.
-  intros Hb He. destruct (snd (step m s c)) as [|e] eqn:Hr; [discriminate|].
-  rewrite (step_err_same m s c e Hb Hr). auto.
+  intros He. destruct (snd (step m s c)) as [|e] eqn:Hr; [discriminate|].
+  rewrite (step_err_same m s c e Hr). auto.
 Qed.
 
-Lemma run_atomic m cs : forall s, Forall benign cs -> atomic_trace s (run m s cs).
+Lemma run_atomic m cs : forall s, atomic_trace s (run m s cs).
 Proof.
-  induction cs as [|c cs IH]; intros s Hb; cbn [run atomic_trace]; [exact I|].
-  inversion Hb as [|? ? Hc Hcs]; subst.
+  induction cs as [|c cs IH]; intros s; cbn [run atomic_trace]; [exact I|].
   destruct (step m s c) as [s' r] eqn:Hstep. cbn [fst]. split.
-  - intros He. pose proof (step_atomic m s c Hc) as H. rewrite Hstep in H. cbn [fst snd] in H. auto.
-  - apply IH. exact Hcs.
+  - intros He. pose proof (step_atomic m s c) as H. rewrite Hstep in H. cbn [fst snd] in H. auto.
+  - apply IH.
 Qed.
 
 (* ---------------------------------------------------------------- conformance, one step *)
@@ -182,17 +246,17 @@ Lemma remote_rule_spec t req nxt q :
   spec_step q (KSetRemote t) = Some (match nxt with Some q' => q' | None => q end).
 Proof. destruct t; cbn; intros H Hq; inversion H; subst; reflexivity. Qed.
 
-Lemma step_conforms m s c : benign c -> conforms m s c.
+Lemma step_conforms m s c : conforms m s c.
 Proof.
-  unfold benign. destruct c as [f|f|d|d f| |]; cbn [env_fail]; intros Hf; subst.
-  - destruct (create_offer_cases m s) as [[H1 H2]|[H1 H2]]; [apply conforms_of_err; assumption|].
-    unfold conforms, spec_after. cbn [step kind_of]. rewrite create_offer_sig, H1, H2. cbn. split; auto; discriminate.
-  - destruct (create_answer_cases m s) as [[H1 H2]|[H1 H2]]; [apply conforms_of_err; assumption|].
-    unfold conforms, spec_after. cbn [step kind_of]. rewrite create_answer_sig, H1, H2. cbn. split; auto; discriminate.
+  destruct c as [f|f|d|d f| |].
+  - destruct (create_offer_cases m s f) as [[H1 H2]|(H1 & H2 & H3)]; [apply conforms_of_err; assumption|].
+    unfold conforms, spec_after. cbn [step kind_of]. rewrite H3, H1, H2. cbn. split; auto; discriminate.
+  - destruct (create_answer_cases m s f) as [[H1 H2]|(H1 & H2 & H3)]; [apply conforms_of_err; assumption|].
+    unfold conforms, spec_after. cbn [step kind_of]. rewrite H3, H1, H2. cbn. split; auto; discriminate.
   - destruct (set_local_cases s d) as [[H1 H2]|[H1 (req & nxt & Hrule & Hq & Hs')]]; [apply conforms_of_err; assumption|].
     unfold conforms, spec_after. cbn [step kind_of]. rewrite H1, Hs'.
     rewrite (local_rule_spec _ _ _ _ Hrule Hq). cbn [is_err]. split; [reflexivity | discriminate].
-  - destruct (set_remote_cases m s d) as [[H1 H2]|[H1 (req & nxt & Hrule & Hq & Hs')]]; [apply conforms_of_err; assumption|].
+  - destruct (set_remote_cases m s d f) as [[H1 H2]|[H1 (req & nxt & Hrule & Hq & Hs')]]; [apply conforms_of_err; assumption|].
     unfold conforms, spec_after. cbn [step kind_of]. rewrite H1, Hs'.
     rewrite (remote_rule_spec _ _ _ _ Hrule Hq). cbn [is_err]. split; [reflexivity | discriminate].
   - unfold conforms, spec_after. cbn. split; auto; discriminate.
@@ -200,45 +264,37 @@ Proof.
 Qed.
 
 (* ---------------------------------------------------------------- conformance, all sequences *)
-Lemma run_conformance m cs : forall s, Forall benign cs -> conf_trace (sig s) cs (run m s cs).
+Lemma run_conformance m cs : forall s, conf_trace (sig s) cs (run m s cs).
 Proof.
-  induction cs as [|c cs IH]; intros s Hb; cbn [run conf_trace]; [exact I|].
-  inversion Hb as [|? ? Hc Hcs]; subst.
+  induction cs as [|c cs IH]; intros s; cbn [run conf_trace]; [exact I|].
   destruct (step m s c) as [s' r] eqn:Hstep. cbn [fst].
-  pose proof (step_conforms m s c Hc) as [H1 H2]. rewrite Hstep in H1, H2. cbn [fst snd] in H1, H2.
+  pose proof (step_conforms m s c) as [H1 H2]. rewrite Hstep in H1, H2. cbn [fst snd] in H1, H2.
   repeat split; auto.
 Qed.
 
-Lemma run_conformance_from m s cs : Forall benign cs -> conf_trace (sig s) cs (run m s cs).
-Proof. intros H. exact (run_conformance m cs s H). Qed.
+Lemma run_conformance_from m s cs : conf_trace (sig s) cs (run m s cs).
+Proof. exact (run_conformance m cs s). Qed.
 
-Lemma run_atomic_from m s cs : Forall benign cs -> atomic_trace s (run m s cs).
-Proof. intros H. exact (run_atomic m cs s H). Qed.
+Lemma run_atomic_from m s cs : atomic_trace s (run m s cs).
+Proof. exact (run_atomic m cs s). Qed.
 
-Lemma conformance_from_init m l cs : Forall benign cs -> conf_trace Stable cs (run m (init l) cs).
-Proof. intros H. exact (run_conformance m cs (init l) H). Qed.
+Lemma conformance_from_init m l cs : conf_trace Stable cs (run m (init l) cs).
+Proof. exact (run_conformance m cs (init l)). Qed.
 
-Lemma atomicity_from_init m l cs : Forall benign cs -> atomic_trace (init l) (run m (init l) cs).
-Proof. intros H. exact (run_atomic m cs (init l) H). Qed.
+Lemma atomicity_from_init m l cs : atomic_trace (init l) (run m (init l) cs).
+Proof. exact (run_atomic m cs (init l)). Qed.
 
-(* even when the environment fails, the signaling state only ever moves along an edge of the
-   implemented table (which is a sub-table of JSEP): it is never set to an arbitrary state *)
+(* the signaling state only ever moves along an edge of the implemented table (a sub-table of JSEP) *)
 Lemma step_moves_along_table m s c :
   sig (fst (step m s c)) = sig s \/ impl_table (sig s) (kind_of c) = Some (sig (fst (step m s c))).
 Proof.
   destruct c as [f|f|d|d f| |]; cbn [step kind_of].
-  - left. apply create_offer_sig.
-  - left. apply create_answer_sig.
+  - left. destruct (create_offer_cases m s f) as [[H _]|(_ & _ & H)]; [rewrite H|]; auto.
+  - left. destruct (create_answer_cases m s f) as [[H _]|(_ & _ & H)]; [rewrite H|]; auto.
   - destruct (set_local_cases s d) as [[H1 H2]|[H1 (req & nxt & Hrule & Hq & Hs')]]; [left; rewrite H1; reflexivity|].
     right. unfold impl_table. rewrite Hs'. destruct (d_ty d); cbn in Hrule |- *; inversion Hrule; subst; rewrite <- H0; cbn; reflexivity.
-  - unfold_calls. destruct (d_ty d) eqn:Ht; proj_simpl; [ | | | left; reflexivity].
-    all: destruct m; proj_simpl; [ destruct (d_fp d); proj_simpl; [left; reflexivity | | left; reflexivity | left; reflexivity] | | ].
-    all: match goal with |- context [dtls_started ?s0 && ?x] => destruct (dtls_started s0 && x) eqn:Hc end;
-         proj_simpl; [left; reflexivity|].
-    all: destruct (remote s) as [p|] eqn:Hr; proj_simpl;
-         [ destruct (d_media p =? d_media d) eqn:Hm; proj_simpl | ].
-    all: destruct (sig s) eqn:Hs; repeat progress (proj_simpl; rewrite ?Hs, ?Hc); auto.
-    all: destruct f; repeat progress (proj_simpl; rewrite ?Hs, ?Hc); auto.
+  - destruct (set_remote_cases m s d f) as [[H1 H2]|[H1 (req & nxt & Hrule & Hq & Hs')]]; [left; rewrite H1; reflexivity|].
+    right. unfold impl_table. rewrite Hs'. destruct (d_ty d); cbn in Hrule |- *; inversion Hrule; subst; rewrite <- H0; cbn; reflexivity.
   - right. reflexivity.
   - left. reflexivity.
 Qed.
@@ -263,10 +319,20 @@ Proof.
     cbn [kind_of] in H. rewrite Ht in H. apply (proj2 (impl_table_pranswer _ _)) in H. exact H.
 Qed.
 
+Lemma frame_refl s : frame s s.
+Proof. unfold frame. auto. Qed.
+
 Lemma rollback_refused m s d e :
   d_ty d = Rollback ->
   step m s (SetLocal d) = (s, Err ENotImplemented) /\ step m s (SetRemote d e) = (s, Err ENotImplemented).
-Proof. intros Ht. cbn [step]. unfold_calls. rewrite Ht. proj_simpl. auto. Qed.
+Proof.
+  intros Ht. cbn [step]. split.
+  - unfold_calls. rewrite Ht. proj_simpl. reflexivity.
+  - unfold set_remote, set_remote_gen, set_remote_restores_on_error.
+    assert (set_remote_raw set_remote_fp_check_early set_remote_next_mid_after_check m s d e = (s, Err ENotImplemented)) as Hraw
+      by (unfold_calls; rewrite Ht; proj_simpl; reflexivity).
+    rewrite Hraw. apply (guard_err s (s, Err ENotImplemented) (frame_refl s)). reflexivity.
+Qed.
 
 Lemma closed_stays_closed m s c : sig s = Closed -> sig (fst (step m s c)) = Closed.
 Proof.
@@ -278,10 +344,13 @@ Lemma closed_rejects m s c :
   sig s = Closed -> c <> Close -> c <> EnvDtlsStarted ->
   fst (step m s c) = s /\ is_err (snd (step m s c)) = true.
 Proof.
-  intros Hs H1 H2. destruct c as [f|f|d|d f| |]; try congruence; cbn [step]; unfold_calls; rewrite ?Hs; proj_simpl; auto.
-  - destruct (d_ty d); repeat progress (proj_simpl; rewrite ?Hs); auto.
-  - destruct (d_ty d); repeat progress (proj_simpl; rewrite ?Hs); auto;
-      repeat (break_if; repeat progress (proj_simpl; rewrite ?Hs); auto).
+  intros Hs H1 H2. destruct c as [f|f|d|d f| |]; try congruence; cbn [step].
+  - destruct (create_offer_cases m s f) as [H|(_ & H & _)]; [exact H | congruence].
+  - destruct (create_answer_cases m s f) as [H|(_ & H & _)]; [exact H | congruence].
+  - destruct (set_local_cases s d) as [H|(_ & req & nxt & Hrule & Hq & _)]; [exact H|].
+    exfalso. destruct (d_ty d); cbn in Hrule; inversion Hrule; congruence.
+  - destruct (set_remote_cases m s d f) as [H|(_ & req & nxt & Hrule & Hq & _)]; [exact H|].
+    exfalso. destruct (d_ty d); cbn in Hrule; inversion Hrule; congruence.
 Qed.
 
 Lemma close_absorbing m cs : forall s,
@@ -301,46 +370,61 @@ Definition w_audio : tx := mkTx Audio None SendRecv 0 0.
 Definition w_sec (pm : Z) : section := mkSec Audio (MNum 0) SendRecv pm 0.
 Definition w_desc (t : SdpType) (id media pm : Z) : desc := mkDesc t id media (FpSha 1) [w_sec pm].
 
-(* premises are satisfiable: a complete benign negotiation, as offerer and as answerer *)
+(* the statements are not vacuous: a complete negotiation, as offerer and as answerer *)
 Example offerer_negotiation :
   let cs := [CreateOffer false; SetLocal (w_desc Offer 1 1 0); SetRemote (w_desc Answer 2 2 7) false] in
-  Forall benign cs /\
   map (fun p => (sig (fst p), snd p)) (run Rtp (init [w_audio]) cs)
   = [(Stable, Ok); (HaveLocalOffer, Ok); (Stable, Ok)].
-Proof. split; [repeat constructor | vm_compute; reflexivity]. Qed.
+Proof. vm_compute. reflexivity. Qed.
 
 Example answerer_negotiation :
   let cs := [SetRemote (w_desc Offer 1 1 7) false; CreateAnswer false; SetLocal (w_desc Pranswer 2 2 7);
              SetLocal (w_desc Answer 3 2 7)] in
-  Forall benign cs /\
   map (fun p => (sig (fst p), snd p)) (run WebRtc (init [w_audio]) cs)
   = [(HaveRemoteOffer, Ok); (HaveRemoteOffer, Ok); (HaveRemoteOffer, Ok); (Stable, Ok)].
-Proof. split; [repeat constructor | vm_compute; reflexivity]. Qed.
+Proof. vm_compute. reflexivity. Qed.
 
-(* open finding `transport_start_failure`: when the transport step reached by the call fails
-   (socket bind / ICE start), the call returns Err although ... *)
-(* ... set_remote_description(offer) has moved to HaveRemoteOffer, stored the description and
-   updated the transceiver (RTP mode) *)
-Lemma env_failure_set_remote_witness :
-  exists m s c e, env_fail c = true /\ snd (step m s c) = Err e /\
-                  sig (fst (step m s c)) <> sig s /\ obs (fst (step m s c)) <> obs s /\
-                  sig (fst (step m s c)) <> spec_after (sig s) (kind_of c) (snd (step m s c)).
+(* fixed finding `transport_start_failure` (commit 26c1790): when the transport step reached by
+   the call fails, the unguarded work has already moved to HaveRemoteOffer, stored the
+   description and updated the transceiver (RTP mode) ... *)
+Lemma env_failure_unguarded_set_remote_witness :
+  exists m s d e, snd (set_remote_gen false true true m s d true) = Err e /\
+                  sig (fst (set_remote_gen false true true m s d true)) <> sig s /\
+                  obs (fst (set_remote_gen false true true m s d true)) <> obs s.
 Proof.
-  exists Rtp, (init [w_audio]), (SetRemote (w_desc Offer 1 1 7) true), EInternal.
+  exists Rtp, (init [w_audio]), (w_desc Offer 1 1 7), EInternal.
   vm_compute. repeat split; discriminate.
 Qed.
 
-(* ... create_offer has assigned mids and advanced the mid counter (RTP / SRTP modes) *)
-Lemma env_failure_create_offer_witness :
-  exists m s c e, env_fail c = true /\ snd (step m s c) = Err e /\
-                  txs (fst (step m s c)) <> txs s /\ next_mid (fst (step m s c)) <> next_mid s.
+(* ... and create_offer has assigned mids and advanced the mid counter (RTP / SRTP modes) *)
+Lemma env_failure_unguarded_create_offer_witness :
+  exists m s e, snd (create_offer_gen false m s true) = Err e /\
+                txs (fst (create_offer_gen false m s true)) <> txs s /\
+                next_mid (fst (create_offer_gen false m s true)) <> next_mid s.
 Proof.
-  exists Rtp, (init [w_audio]), (CreateOffer true), EInternal.
+  exists Rtp, (init [w_audio]), EInternal.
   vm_compute. repeat split; discriminate.
 Qed.
+
+(* with the restore-on-error guard the same two inputs are refused without any change *)
+Example env_failure_set_remote_now_atomic :
+  step Rtp (init [w_audio]) (SetRemote (w_desc Offer 1 1 7) true) = (init [w_audio], Err EInternal).
+Proof. vm_compute. reflexivity. Qed.
+
+Example env_failure_create_offer_now_atomic :
+  step Rtp (init [w_audio]) (CreateOffer true) = (init [w_audio], Err EInternal).
+Proof. vm_compute. reflexivity. Qed.
+
+(* an environment failure in the middle of a negotiation: the call fails, nothing moves, and
+   the same call succeeds when the environment recovers *)
+Example env_failure_then_retry :
+  map (fun p => (sig (fst p), snd p))
+      (run Srtp (init [w_audio]) [SetRemote (w_desc Offer 1 1 7) true; SetRemote (w_desc Offer 1 1 7) false; CreateAnswer true; CreateAnswer false])
+  = [(Stable, Err EInternal); (HaveRemoteOffer, Ok); (HaveRemoteOffer, Err EInternal); (HaveRemoteOffer, Ok)].
+Proof. vm_compute. reflexivity. Qed.
 
 (* the three orders of effects that commits e54053c / a9101a5 repaired, kept as witnesses about the
-   parametrised step functions: with the old order a rejected call did change state *)
+   parametrised (unguarded) step functions: with the old order a rejected call did change state *)
 Lemma F13_old_order_witness :
   exists s d e, snd (set_local_gen false s d) = Err e /\ txs (fst (set_local_gen false s d)) <> txs s.
 Proof.
@@ -350,17 +434,17 @@ Proof.
 Qed.
 
 Lemma next_mid_old_order_witness :
-  exists m s d e, snd (set_remote_gen true false m s d false) = Err e /\
-                  next_mid (fst (set_remote_gen true false m s d false)) <> next_mid s.
+  exists m s d e, snd (set_remote_gen false true false m s d false) = Err e /\
+                  next_mid (fst (set_remote_gen false true false m s d false)) <> next_mid s.
 Proof.
   exists Rtp, (init [w_audio]), (mkDesc Answer 1 1 FpNone [mkSec Audio (MNum 7) SendRecv 0 0]), EInvalidState.
   vm_compute. split; [reflexivity | discriminate].
 Qed.
 
 Lemma fingerprint_old_order_witness :
-  exists m s d e, snd (set_remote_gen false true m s d false) = Err e /\
-                  sig (fst (set_remote_gen false true m s d false)) <> sig s /\
-                  txs (fst (set_remote_gen false true m s d false)) <> txs s.
+  exists m s d e, snd (set_remote_gen false false true m s d false) = Err e /\
+                  sig (fst (set_remote_gen false false true m s d false)) <> sig s /\
+                  txs (fst (set_remote_gen false false true m s d false)) <> txs s.
 Proof.
   exists WebRtc,
     (final WebRtc (init [w_audio])
@@ -385,3 +469,39 @@ Example fingerprint_witness_now_atomic :
        [SetRemote (w_desc Offer 1 1 7) false; CreateAnswer false; SetLocal (w_desc Answer 2 2 7); EnvDtlsStarted] in
   step WebRtc s (SetRemote (mkDesc Offer 3 3 (FpSha 2) [w_sec 8]) false) = (s, Err EInvalidState).
 Proof. vm_compute. reflexivity. Qed.
+
+(* ---------------------------------------------------------------- facts used by the concurrency proofs *)
+Lemma step_keeps_dtls m s c :
+  c <> EnvDtlsStarted -> dtls_started (fst (step m s c)) = dtls_started s.
+Proof.
+  intros Hc. destruct c as [f|f|d|d f| |]; try congruence; cbn [step].
+  - unfold create_offer, create_offer_gen, create_offer_restores_on_error.
+    destruct (create_offer_raw_facts m s f) as ((_ & Hd & _) & _).
+    destruct (result_dec (snd (create_offer_raw m s f))) as [He|Ho].
+    + rewrite (guard_err _ _ (proj1 (create_offer_raw_facts m s f)) He). reflexivity.
+    + rewrite (guard_ok _ _ _ Ho). exact Hd.
+  - unfold create_answer, create_answer_gen, create_answer_restores_on_error.
+    destruct (create_answer_raw_facts m s f) as ((_ & Hd & _) & _).
+    destruct (result_dec (snd (create_answer_raw m s f))) as [He|Ho].
+    + rewrite (guard_err _ _ (proj1 (create_answer_raw_facts m s f)) He). reflexivity.
+    + rewrite (guard_ok _ _ _ Ho). exact Hd.
+  - unfold_calls. destruct (d_ty d); proj_simpl; auto; destruct (sig s); proj_simpl; reflexivity.
+  - unfold set_remote, set_remote_gen, set_remote_restores_on_error, set_remote_fp_check_early,
+      set_remote_next_mid_after_check.
+    destruct (set_remote_raw_facts m s d f) as (Hf & _ & _).
+    destruct (result_dec (snd (set_remote_raw true true m s d f))) as [He|Ho].
+    + rewrite (guard_err _ _ Hf He). reflexivity.
+    + rewrite (guard_ok _ _ _ Ho). destruct Hf as (_ & Hd & _). exact Hd.
+  - reflexivity.
+Qed.
+
+Lemma final_app m s l c : final m s (l ++ [c]) = fst (step m (final m s l) c).
+Proof. unfold final. rewrite fold_left_app. reflexivity. Qed.
+
+Lemma run_results_app m l : forall s c,
+  map snd (run m s (l ++ [c])) = map snd (run m s l) ++ [snd (step m (final m s l) c)].
+Proof.
+  induction l as [|x l IH]; intros s c; cbn [app run map].
+  - reflexivity.
+  - rewrite IH. reflexivity.
+Qed.
